@@ -49,6 +49,8 @@ struct ThreadSt {
     first_ev: Option<u64>,
     last_ev: u64,
     spun_in_this_op: bool,
+    /// unsuccessful polls this thread may still make before it is treated as waiting (`Case::spin`)
+    spin_budget: usize,
 }
 
 /// Source of scheduling decisions.
@@ -209,10 +211,12 @@ pub struct Sched {
     yield_kind: Cell<u8>,
     /// the suspended atomic access is the first shared action of its operation
     yield_first: Cell<bool>,
+    /// steps after which a run is abandoned as inconclusive (grows with the source length)
+    step_bound: u64,
 }
 
 impl Sched {
-    fn new(n: usize, freeze: Option<(usize, usize)>, unmodelled: bool) -> Sched {
+    fn new(n: usize, freeze: Option<(usize, usize)>, unmodelled: bool, spin: usize, len: usize) -> Sched {
         let clocks = (0..=n)
             .map(|i| {
                 let mut v = vec![0u32; n + 1];
@@ -228,7 +232,8 @@ impl Sched {
             n,
             cur: Cell::new(n),
             yielders: (0..n).map(|_| Cell::new(std::ptr::null())).collect(),
-            st: RefCell::new(vec![ThreadSt::default(); n]),
+            st: RefCell::new(vec![ThreadSt { spin_budget: spin, ..ThreadSt::default() }; n]),
+            step_bound: STEP_BOUND + 80 * len as u64 + 4 * spin as u64 * n as u64,
             clocks: RefCell::new(clocks),
             rel: RefCell::new(HashMap::new()),
             step: Cell::new(0),
@@ -387,7 +392,9 @@ impl Monitor for Sched {
             let n = r.len();
             if n >= SPIN_MIN {
                 let periodic = (1..=3usize).any(|p| (n - SPIN_MIN..n - p).all(|i| r[i] == r[i + p]));
-                if periodic && !s.spinning {
+                if periodic && !s.spinning && s.spin_budget > 0 {
+                    s.spin_budget -= 1;
+                } else if periodic && !s.spinning {
                     s.spinning = true;
                     if !s.spun_in_this_op {
                         s.spun_in_this_op = true;
@@ -557,7 +564,8 @@ impl<'c, 'k> Body for SchedBody<'c, 'k> {
         let chooser = self.chooser;
         let n = case.threads.len();
         hooks::reset_env(case.fault);
-        let sched = Sched::new(n, case.freeze, self.unmodelled);
+        crate::interp::set_keep_going(case.keep_going);
+        let sched = Sched::new(n, case.freeze, self.unmodelled, case.spin, case.len);
         let mut stashes: Vec<Vec<I::Item>> = (0..n).map(|_| Vec::new()).collect();
         let completed: Vec<Cell<bool>> = (0..n).map(|_| Cell::new(false)).collect();
         {
@@ -755,7 +763,7 @@ fn drive<'a>(sp: &'a Sched, bodies: Vec<Box<dyn FnOnce() + 'a>>, chooser: &mut d
         }
         cur = Some(next);
         resume(&mut cos, next);
-        if sp.step.get() > STEP_BOUND {
+        if sp.step.get() > sp.step_bound {
             sp.stats.borrow_mut().step_bound_hit = true;
             break;
         }
@@ -820,7 +828,7 @@ pub fn scan_unmodelled() -> Vec<String> {
     let mut stack = vec![root.to_path_buf()];
     let needles = [
         "Mutex", "RwLock", "Condvar", "Once", "fence(", "AtomicPtr", "AtomicU64", "AtomicU32", "AtomicU8", "AtomicU16",
-        "AtomicIsize", "AtomicI64", "AtomicI32", "park", "yield_now", "spin_loop", "Barrier", "mpsc", "static mut",
+        "AtomicIsize", "AtomicI64", "AtomicI32", "park", "Barrier", "mpsc", "static mut",
     ];
     while let Some(d) = stack.pop() {
         let Ok(rd) = std::fs::read_dir(&d) else { continue };
